@@ -365,6 +365,16 @@ func famFault(tr *Trace, scratch string, seed int64, tier string, workers int, r
 			{"content_type", func(c *Cfg, y string) string {
 				return strings.Replace(y, "contents:\n", "contents:\n  - src: "+yq(root+"/src/bin")+"\n    dst: \"/x/y\"\n    type: \"fille\"\n", 1)
 			}},
+			// ... also one that starts like a valid configuration type
+			{"content_type_config_replace", func(c *Cfg, y string) string {
+				return strings.Replace(y, "contents:\n", "contents:\n  - src: "+yq(root+"/src/app.conf")+"\n    dst: \"/etc/x/y\"\n    type: \"config|replace\"\n", 1)
+			}},
+			{"content_type_configuration", func(c *Cfg, y string) string {
+				return strings.Replace(y, "contents:\n", "contents:\n  - src: "+yq(root+"/src/app.conf")+"\n    dst: \"/etc/x/y\"\n    type: \"configuration\"\n", 1)
+			}},
+			{"content_type_config_both_flags", func(c *Cfg, y string) string {
+				return strings.Replace(y, "contents:\n", "contents:\n  - src: "+yq(root+"/src/app.conf")+"\n    dst: \"/etc/x/y\"\n    type: \"config|noreplace|missingok\"\n", 1)
+			}},
 			{"deb_signature_type", func(c *Cfg, y string) string {
 				setSigning(c, "deb", repo+"/internal/sign/testdata")
 				c.DebSigType = "bogus"
